@@ -350,8 +350,9 @@ def judge_tree(ctx, impl, execf, trace_path, tag, workers=4, heap=None, max_repo
 # ----------------------------------------------------------------------------------------------- parts: model
 def part_model(ctx, with_ts):
     T = ctx.thorough
-    fs_ok = [("MC_X04FS", "MC_X04FS_java.cfg" if not T else "MC_X04FS_java_large.cfg", "java fail-safe: I=>P (subset construction) under the pinned deviation"),
-             ("MC_X04FS", "MC_X04FS_java_benign.cfg", "java fail-safe: benign variant (counter cleared on recovery) must refine P")]
+    fs_ok = [("MC_X04FS", "MC_X04FS_java.cfg" if not T else "MC_X04FS_java_large.cfg", "java fail-safe: I=>P (subset construction) under the pinned deviation")]
+    if T:
+        fs_ok += [("MC_X04FS", "MC_X04FS_java_benign.cfg", "java fail-safe: benign variant (counter cleared on recovery) must refine P")]
     fs_bad = [("MC_X04FS", "MC_X04FS_java_strict.cfg", "the pinned deviation is real: I is refuted by the statement alone"),
               ("MC_X04FS", "MC_X04FS_java_strictcool.cfg", "non-vacuity: strict cool-down test"),
               ("MC_X04FS", "MC_X04FS_java_noreset.cfg", "non-vacuity: success not clearing the counter"),
@@ -440,39 +441,43 @@ def tree_jobs(impl, T):
     jobs = []
     if impl == "java" and not T:
         jobs.append(("core5", {"configs": CONFIGS, "depth": 5, "alphabet": CORE}))
-        jobs.append(("core6", {"configs": [{"N": 2, "C": 2}], "depth": 6, "alphabet": CORE}))
-        jobs.append(("noread5", {"configs": timed([{"N": 1, "C": 1}, {"N": 2, "C": 2}], 8, 7), "depth": 5, "alphabet": CORE7}))
+        jobs.append(("noread5", {"configs": timed([{"N": 2, "C": 1}], 8, 7), "depth": 5, "alphabet": CORE7}))
         jobs.append(("ext4", {"configs": timed([{"N": 1, "C": 1}, {"N": 2, "C": 1}], 8, 3), "depth": 4, "alphabet": EXT}))
         jobs.append(("frac6", {"configs": timed([{"N": 2, "C": 1}], 8, 5), "depth": 6, "alphabet": FRAC}))
         jobs.append(("dev4", {"configs": [{"N": 1, "C": 1}, {"N": 2, "C": 2}, {"N": 3, "C": 1}], "depth": 4, "alphabet": DEVF}))
         jobs.append(("dev5", {"configs": [{"N": 2, "C": 1}], "depth": 5, "alphabet": DEVF}))
     elif impl == "java":
-        for c in CONFIGS:
+        deep = [c for c in CONFIGS if c["N"] + c["C"] <= 4]
+        for c in deep:
             jobs.append(("core7-n%dc%d" % (c["N"], c["C"]), {"configs": [c], "depth": 7, "alphabet": CORE}))
-        jobs.append(("noread6-a", {"configs": timed(CONFIGS[:5], 8, 7), "depth": 6, "alphabet": CORE7}))
-        jobs.append(("noread6-b", {"configs": timed(CONFIGS[5:], 8, 7), "depth": 6, "alphabet": CORE7}))
-        jobs.append(("ext5", {"configs": timed(small, 8, 3), "depth": 5, "alphabet": EXT}))
-        jobs.append(("ext4", {"configs": timed([c for c in CONFIGS if c not in small], 8, 3), "depth": 4, "alphabet": EXT}))
-        jobs.append(("frac7", {"configs": timed(small, 8, 5), "depth": 7, "alphabet": FRAC}))
+        jobs.append(("core6", {"configs": [c for c in CONFIGS if c not in deep], "depth": 6, "alphabet": CORE}))
+        jobs.append(("noread6", {"configs": timed(small, 8, 7), "depth": 6, "alphabet": CORE7}))
+        jobs.append(("noread5", {"configs": timed([c for c in CONFIGS if c not in small], 8, 7), "depth": 5, "alphabet": CORE7}))
+        jobs.append(("ext5", {"configs": timed([{"N": 1, "C": 1}, {"N": 2, "C": 1}], 8, 3), "depth": 5, "alphabet": EXT}))
+        jobs.append(("ext4", {"configs": timed([c for c in CONFIGS if c["C"] > 1 or c["N"] == 3], 8, 3), "depth": 4, "alphabet": EXT}))
+        jobs.append(("frac7", {"configs": timed([{"N": 1, "C": 1}, {"N": 2, "C": 2}], 8, 5), "depth": 7, "alphabet": FRAC}))
         jobs.append(("frac6-ms", {"configs": timed([{"N": 1, "C": 3}, {"N": 3, "C": 1}], 1000, 37), "depth": 6,
                      "alphabet": alphabet([999, 1, 1000], "proxy/x-lunar-error/2")[:-1]}))
-        jobs.append(("dev6", {"configs": small + [{"N": 3, "C": 1}], "depth": 6, "alphabet": DEVF}))
+        jobs.append(("dev6", {"configs": [{"N": 2, "C": 1}], "depth": 6, "alphabet": DEVF}))
+        jobs.append(("dev5", {"configs": [c for c in small if c != {"N": 2, "C": 1}] + [{"N": 3, "C": 1}], "depth": 5, "alphabet": DEVF}))
     elif not T:
-        jobs.append(("core5", {"configs": CONFIGS, "depth": 5, "alphabet": T_CORE}))
-        jobs.append(("noread5", {"configs": timed([{"N": 1, "C": 1}, {"N": 2, "C": 2}], 8, 7), "depth": 5, "alphabet": T_CORE7}))
+        jobs.append(("core5", {"configs": [c for c in CONFIGS if c["N"] + c["C"] <= 4], "depth": 5, "alphabet": T_CORE}))
+        jobs.append(("noread5", {"configs": timed([{"N": 2, "C": 1}], 8, 7), "depth": 5, "alphabet": T_CORE7}))
         jobs.append(("frac6", {"configs": timed([{"N": 2, "C": 1}], 8, 5), "depth": 6, "alphabet": T_FRAC}))
         jobs.append(("dev4", {"configs": [{"N": 1, "C": 1}, {"N": 2, "C": 2}, {"N": 3, "C": 1}], "depth": 4, "alphabet": T_DEVF}))
         jobs.append(("dev5", {"configs": [{"N": 2, "C": 1}], "depth": 5, "alphabet": T_DEVF}))
     else:
-        for c in CONFIGS:
+        deep = [{"N": 1, "C": 1}, {"N": 2, "C": 1}, {"N": 2, "C": 2}]
+        for c in deep:
             jobs.append(("core7-n%dc%d" % (c["N"], c["C"]), {"configs": [c], "depth": 7, "alphabet": T_CORE}))
-        jobs.append(("noread6-a", {"configs": timed(CONFIGS[:5], 8, 7), "depth": 6, "alphabet": T_CORE7}))
-        jobs.append(("noread6-b", {"configs": timed(CONFIGS[5:], 8, 7), "depth": 6, "alphabet": T_CORE7}))
-        jobs.append(("frac7", {"configs": timed(small, 8, 5), "depth": 7, "alphabet": T_FRAC}))
+        jobs.append(("core6", {"configs": [c for c in CONFIGS if c not in deep], "depth": 6, "alphabet": T_CORE}))
+        jobs.append(("noread6", {"configs": timed(small, 8, 7), "depth": 6, "alphabet": T_CORE7}))
+        jobs.append(("noread5", {"configs": timed([c for c in CONFIGS if c not in small], 8, 7), "depth": 5, "alphabet": T_CORE7}))
+        jobs.append(("frac7", {"configs": timed([{"N": 1, "C": 1}, {"N": 2, "C": 2}], 8, 5), "depth": 7, "alphabet": T_FRAC}))
         jobs.append(("frac6-ms", {"configs": timed([{"N": 1, "C": 3}, {"N": 3, "C": 1}], 1000, 37), "depth": 6,
                      "alphabet": [{"ev": "ask"}, {"ev": "adv", "d": 999}, {"ev": "adv", "d": 1}, {"ev": "adv", "d": 1000},
                                   {"ev": "call", "read": True, "out": "ok", "kind": ""}, {"ev": "call", "read": True, "out": "gwerr", "kind": "conn"}]}))
-        jobs.append(("dev5", {"configs": small + [{"N": 3, "C": 1}, {"N": 3, "C": 2}], "depth": 5, "alphabet": T_DEVF}))
+        jobs.append(("dev5", {"configs": small + [{"N": 3, "C": 1}], "depth": 5, "alphabet": T_DEVF}))
     return jobs
 
 
@@ -569,7 +574,7 @@ def part_walks(ctx, execf, impl="java"):
     """(a) TLC -simulate walks of FailSafeJavaI replayed (spec -> code);  (b) seeded random long histories (code -> spec)."""
     T = ctx.thorough
     sd = workdir(ctx, "gen-" + impl)
-    n = 25 if not T else 200
+    n = 15 if not T else 100
     gen = "GenX04FS" if impl == "java" else "GenX04FSTs"
     g = ctx.tlc(sd, gen, gen + ".cfg", workers=1, simulate="num=%d" % n, depth=45, extra=["-seed", str(ctx.seed)], timeout=900,
                 label="behaviour generation (simulation of the %s fail-safe model)" % impl)
@@ -617,7 +622,7 @@ def part_walks(ctx, execf, impl="java"):
     if not rej:
         ctx.cov["traces_validated_against_impl"] += len(walks)
 
-    nr = 200 if not T else 3000
+    nr = 120 if not T else 1500
     rs = [rand_script(ctx.rng, T, impl) for _ in range(nr)]
     json.dump(rs, open(os.path.join(d, "rand.json"), "w"))
     s2 = execf(ctx, ["scripts", os.path.join(d, "rand.json"), os.path.join(d, "rand.ndjson")])
@@ -744,7 +749,7 @@ def part_filter(ctx, space, impl, node=None):
     lists = space["lists"]
     cfgs = [{"allow": a, "block": b} for a in lists for b in lists]
     hosts = list(space["hosts"])
-    rnd = rnd_hosts(ctx, 6 if not T else 50)
+    rnd = rnd_hosts(ctx, 6 if not T else 25)
     hf = None
     if impl == "java":
         hf = hosts_file(ctx, hosts + rnd, "hosts-filter")
@@ -759,14 +764,14 @@ def part_filter(ctx, space, impl, node=None):
     # LUNAR_ALLOW_LIST set to the empty string (the README: "If the value is empty ... check the LUNAR_BLOCK_LIST")
     single += [{"allow": [], "block": b, "envform": "allow-empty"} for b in lists if len(b) <= 1][:4 if not T else 20]
     if not T:
-        runs = [("main", single + ctx.rng.sample(rest, 60 if impl == "java" else 40), hosts + rnd, False)]
+        runs = [("main", single + ctx.rng.sample(rest, 40 if impl == "java" else 25), hosts + rnd, False)]
         wired_cfgs = single[:8] + ctx.rng.sample(rest, 12)
     else:
-        picked = single + ctx.rng.sample(rest, 1400 if impl == "java" else 700)
+        picked = single + ctx.rng.sample(rest, 560 if impl == "java" else 260)
         per = 300
         runs = [("main%d" % k, picked[i:i + per], hosts, False) for k, i in enumerate(range(0, len(picked), per))]
-        runs.append(("rand", ctx.rng.sample(rest, 300), rnd, False))
-        wired_cfgs = single + ctx.rng.sample(rest, 120)
+        runs.append(("rand", ctx.rng.sample(rest, 200), rnd, False))
+        wired_cfgs = single + ctx.rng.sample(rest, 60)
     # the same decisions as an application request sees them (hook / injected code + filter + a fresh breaker): destinations a URL can carry
     urlable = [h for h in hosts + rnd if h["kind"] in ("name", "ip4", "ip6") and " " not in h["h"] and h["h"] not in ("::", "a..b")]
     runs.append(("wired", wired_cfgs, urlable, True))
